@@ -124,9 +124,32 @@ type c29State struct {
 	active atomic.Int32
 	closes atomic.Int32
 	w      *c29World
+
+	mode       int // 0 plain, 1 Close panics, 2 Close blocks until `goclose`
+	barrier    chan struct{}
+	released   atomic.Bool
+	blockedNow atomic.Bool
+	closers    sync.Map // gid -> true: goroutines currently inside the blocking Close (a defect can make it several)
+}
+
+func (s *c29State) release() {
+	if !s.released.Swap(true) && s.barrier != nil {
+		close(s.barrier)
+	}
 }
 
 func (s *c29State) Close() error {
+	if s.mode == 2 && !s.released.Load() {
+		g := c29Gid()
+		s.closers.Store(g, true)
+		s.blockedNow.Store(true)
+		<-s.barrier
+		s.closers.Delete(g)
+		s.blockedNow.Store(false)
+	}
+	if s.mode == 1 {
+		defer panic("c29 scripted Close panic")
+	}
 	s.closes.Add(1)
 	// DELETE is documented to serialize with an in-flight call on the same session: its Close must not
 	// run underneath a handler that is still executing on this state. (Expiry, the reaper and shutdown
@@ -143,7 +166,12 @@ func (s *c29State) Close() error {
 		}
 		s.w.mu.Unlock()
 		if byDelete >= 0 {
-			s.w.oracle("close-during-handler", fmt.Sprintf("DELETE (thread %d) ran Close on session %s while %d call(s) were still inside their handler on it", byDelete, s.key, n))
+			// decided when the DELETE completes: a 200 means this Close was the in-line eviction of an
+			// EXPIRED session inside registry.get (allowed under a running handler), a 204 means it was the
+			// DELETE's own close
+			s.w.mu.Lock()
+			s.w.pendingCDH = append(s.w.pendingCDH, c29CDH{byDelete, fmt.Sprintf("DELETE (thread %d) ran Close on session %s while %d call(s) were still inside their handler on it", byDelete, s.key, n)})
+			s.w.mu.Unlock()
 		}
 	}
 	return nil
@@ -204,6 +232,88 @@ type c29World struct {
 	stuck    bool
 	handles  map[string]vgirpc.VerifC29Handle // w/sidhex -> entry (kept after it left the registry)
 	flagged  map[string]bool
+	sweeps   []*c29Sweep
+	pendingCDH []c29CDH
+	all      []*c29State // every state object handed to OpenSession (also refused / rolled-back opens)
+}
+
+type c29CDH struct {
+	thread int
+	desc   string
+}
+
+// c29Sweep is one reaper sweep or shutdown, run in its own goroutine (a state's Close may block).
+type c29Sweep struct {
+	id       int
+	gid      string
+	took     map[string]bool // sessions this sweep is due to close
+	n        atomic.Int32
+	done     atomic.Bool
+	reported bool
+}
+
+// closingGid reports whether goroutine gid is currently inside a blocking Close.
+func (w *c29World) closingGid(gid string) bool {
+	w.mu.Lock()
+	defer w.mu.Unlock()
+	for _, st := range w.all {
+		if _, in := st.closers.Load(gid); in {
+			return true
+		}
+	}
+	return false
+}
+
+func (w *c29World) startSweep(took map[string]bool, run func() int) {
+	sw := &c29Sweep{id: len(w.sweeps), took: took}
+	w.sweeps = append(w.sweeps, sw)
+	started := make(chan struct{})
+	go func() {
+		sw.gid = c29Gid()
+		close(started)
+		defer func() {
+			if r := recover(); r != nil {
+				w.oracle("close-panic-escaped", fmt.Sprintf("a panic escaped from a registry sweep/shutdown (a state's Close panicked): %v", r))
+			}
+			sw.done.Store(true)
+		}()
+		sw.n.Store(int32(run()))
+	}()
+	<-started
+	w.settleSweeps()
+}
+
+// sweepExpired runs one reaper sweep at `now` in its own goroutine.
+func (w *c29World) sweepExpired(wi int, now time.Time) {
+	took := map[string]bool{}
+	for _, e := range w.workers[wi].h.VerifC29Entries() {
+		if e.ExpiresAt.Before(now) {
+			took[fmt.Sprintf("%d/%s", wi, hex.EncodeToString(e.SID))] = true
+		}
+	}
+	h := w.workers[wi].h
+	w.startSweep(took, func() int { return h.VerifC29DrainExpired(now) })
+}
+
+func (w *c29World) releaseAllCloses() {
+	w.mu.Lock()
+	for _, st := range w.all {
+		st.release()
+	}
+	w.mu.Unlock()
+}
+
+func (w *c29World) settleSweeps() {
+	deadline := time.Now().Add(20 * time.Second)
+	for _, sw := range w.sweeps {
+		for !sw.done.Load() && !w.closingGid(sw.gid) {
+			if time.Now().After(deadline) {
+				w.oracle("request-stuck", "a registry sweep neither finished nor reached a blocking Close within 20 s")
+				return
+			}
+			time.Sleep(100 * time.Microsecond)
+		}
+	}
 }
 
 var c29Cur atomic.Pointer[c29World]
@@ -560,7 +670,11 @@ func (t *c29Thread) start(w *c29World) {
 		close(started)
 		defer func() {
 			if r := recover(); r != nil {
-				w.oracle("request-panic-escaped", fmt.Sprintf("thread %d: %v", t.id, r))
+				cl := "request-panic-escaped"
+				if strings.Contains(fmt.Sprint(r), "scripted Close panic") {
+					cl = "close-panic-escaped"
+				}
+				w.oracle(cl, fmt.Sprintf("thread %d: a panic escaped from the request: %v", t.id, r))
 			}
 			t.mu.Lock()
 			t.code = rw.code
@@ -666,10 +780,20 @@ func (t *c29Thread) handler(w *c29World, ctx *vgirpc.CallContext) {
 			t.mu.Unlock()
 		case strings.HasPrefix(op, "o"):
 			ttlS, sidS, _ := strings.Cut(op[1:], "/")
+			sidS, modeS, _ := strings.Cut(sidS, ":")
 			ttl, _ := strconv.Atoi(ttlS)
 			sid, _ := hex.DecodeString(sidS)
-			st := &c29State{key: fmt.Sprintf("%d/%s", t.worker, sidS), w: w, opener: t.ident}
+			st := &c29State{key: fmt.Sprintf("%d/%s", t.worker, sidS), w: w, opener: t.ident, barrier: make(chan struct{})}
+			switch modeS {
+			case "p":
+				st.mode = 1
+			case "b":
+				st.mode = 2
+			}
 			drainingBefore := w.workers[t.worker].draining
+			w.mu.Lock()
+			w.all = append(w.all, st)
+			w.mu.Unlock()
 			c29Rd.force(sid)
 			err := ctx.OpenSession(st, time.Duration(ttl)*c29Tick)
 			consumed := c29Rd.clear()
@@ -749,12 +873,13 @@ func (t *c29Thread) settle(w *c29World) {
 	}
 	deadline := time.Now().Add(20 * time.Second)
 	parked := 0
-	if t.atLock {
-		parked = 4 // already seen parked on the lock: one confirming sample is enough
-	}
 	for {
 		st := t.getStatus()
 		if st != "running" {
+			t.atLock = false
+			return
+		}
+		if w.closingGid(t.gid) {
 			t.atLock = false
 			return
 		}
@@ -778,6 +903,7 @@ func (t *c29Thread) settle(w *c29World) {
 }
 
 func (w *c29World) settleAll() {
+	w.settleSweeps()
 	for round := 0; round < 2; round++ {
 		for _, t := range w.threads {
 			if t.getStatus() == "running" {
@@ -788,6 +914,7 @@ func (w *c29World) settleAll() {
 }
 
 func (w *c29World) status(t *c29Thread) string {
+	closing := w.closingGid(t.gid)
 	t.mu.Lock()
 	defer t.mu.Unlock()
 	pre := fmt.Sprintf("t%d=", t.id)
@@ -796,6 +923,9 @@ func (w *c29World) status(t *c29Thread) string {
 	case "blocked":
 		return pre + "blk:" + obs
 	case "running":
+		if closing {
+			return pre + "closing"
+		}
 		if t.atLock {
 			return pre + "lock"
 		}
@@ -844,6 +974,20 @@ func (w *c29World) captureHandles() {
 // that is held although no unfinished request can be its holder was left behind by a finished one;
 // and requests that are all parked on session locks with nobody left to release them never run.
 func (w *c29World) checkLocks() {
+	if !w.checkLocksOnce(false) {
+		// something looks wrong: look again after a fresh settle, so that a request that was just
+		// handed the lock is not mistaken for one still parked on it
+		time.Sleep(2 * time.Millisecond)
+		for _, t := range w.threads {
+			t.atLock = false
+		}
+		w.settleAll()
+		w.checkLocksOnce(true)
+	}
+}
+
+func (w *c29World) checkLocksOnce(report bool) (clean bool) {
+	clean = true
 	w.captureHandles()
 	holders := map[string]bool{} // sessions an unfinished, not-parked request may legitimately hold
 	parked, movers := []*c29Thread{}, 0
@@ -868,6 +1012,10 @@ func (w *c29World) checkLocks() {
 	}
 	for k, h := range w.handles {
 		if !holders[k] && !w.flagged["L"+k] && h.Locked() {
+			clean = false
+			if !report {
+				continue
+			}
 			w.flagged["L"+k] = true
 			w.oracle("session-left-locked", fmt.Sprintf("the lock of session %s is held although every request that could hold it has completed", k))
 		}
@@ -876,11 +1024,16 @@ func (w *c29World) checkLocks() {
 		for _, t := range parked {
 			k := fmt.Sprintf("Q%d", t.id)
 			if !w.flagged[k] {
+				clean = false
+				if !report {
+					continue
+				}
 				w.flagged[k] = true
 				w.oracle("queued-call-never-ran", fmt.Sprintf("request %d is parked on the lock of session %d/%s and no running request is left to release it", t.id, t.worker, t.target))
 			}
 		}
 	}
+	return clean
 }
 
 func (w *c29World) report(head string) string {
@@ -894,6 +1047,23 @@ func (w *c29World) report(head string) string {
 		parts = append(parts, w.status(t))
 		if t.getStatus() == "done" {
 			t.reported = true
+			if t.isDelete {
+				w.mu.Lock()
+				var keep []c29CDH
+				var fire []string
+				for _, p := range w.pendingCDH {
+					if p.thread != t.id {
+						keep = append(keep, p)
+					} else if t.code == 204 {
+						fire = append(fire, p.desc)
+					}
+				}
+				w.pendingCDH = keep
+				w.mu.Unlock()
+				for _, d := range fire {
+					w.oracle("close-during-handler", d)
+				}
+			}
 			if t.isDelete && t.code == 204 && t.target != "" {
 				// DELETE is documented to serialize with an in-flight call on the same session
 				for _, o := range w.threads {
@@ -907,7 +1077,28 @@ func (w *c29World) report(head string) string {
 			}
 		}
 	}
+	for _, sw := range w.sweeps {
+		if sw.reported {
+			continue
+		}
+		if sw.done.Load() {
+			sw.reported = true
+			parts = append(parts, fmt.Sprintf("y%d=done:%d", sw.id, sw.n.Load()))
+		} else {
+			parts = append(parts, fmt.Sprintf("y%d=closing", sw.id))
+		}
+	}
 	return strings.Join(parts, " ")
+}
+
+func (w *c29World) pendingSweeps() int {
+	n := 0
+	for _, sw := range w.sweeps {
+		if !sw.done.Load() {
+			n++
+		}
+	}
+	return n
 }
 
 func (w *c29World) active() int {
@@ -937,14 +1128,33 @@ func (w *c29World) snapshot(c *Case, line string) string {
 			}
 		}
 	}
+	masked := map[string]bool{}
+	for _, sw := range w.sweeps {
+		if !sw.done.Load() {
+			for k := range sw.took {
+				masked[k] = true
+			}
+		}
+	}
+	quiet := w.active() == 0 && w.pendingSweeps() == 0
 	w.mu.Lock()
+	for _, st := range w.all {
+		// a rolled-back open whose state's Close is still blocking exists for the registry already
+		if st.blockedNow.Load() && w.states[st.key] == nil {
+			cls = append(cls, fmt.Sprintf("%s=?", st.key))
+		}
+	}
 	for k, st := range w.states {
 		n := int(st.closes.Load())
-		cls = append(cls, fmt.Sprintf("%s=%d", k, n))
+		if masked[k] || st.blockedNow.Load() {
+			cls = append(cls, fmt.Sprintf("%s=?", k))
+		} else {
+			cls = append(cls, fmt.Sprintf("%s=%d", k, n))
+		}
 		if n > 1 {
 			c.Oracle("close-more-than-once", fmt.Sprintf("after %q: state of session %s closed %d times", line, k, n))
 		}
-		if w.active() == 0 {
+		if quiet {
 			if live[k] && n != 0 {
 				c.Oracle("closed-while-live", fmt.Sprintf("after %q: session %s is still registered but its state was closed", line, k))
 			}
@@ -974,6 +1184,7 @@ func c29ExecLocal(c *Case) {
 	c29Cur.Store(w)
 	defer func() {
 		// never leave a goroutine parked
+		w.releaseAllCloses()
 		for _, t := range w.threads {
 			for i := 0; i < 5 && t.getStatus() != "done"; i++ {
 				t.mu.Lock()
@@ -1010,6 +1221,8 @@ func c29ExecLocal(c *Case) {
 		c.Out(l, out)
 	}
 	// end of case: release everything, then the final accounting
+	w.releaseAllCloses()
+	w.settleSweeps()
 	for _, t := range w.threads {
 		for i := 0; i < 6 && t.getStatus() != "done"; i++ {
 			t.mu.Lock()
@@ -1025,7 +1238,14 @@ func c29ExecLocal(c *Case) {
 	if len(w.workers) > 0 {
 		w.snapshot(c, "<end of case>")
 		for _, wk := range w.workers {
-			wk.h.DrainHandle().Shutdown()
+			func() {
+				defer func() {
+					if r := recover(); r != nil {
+						w.oracle("close-panic-escaped", fmt.Sprintf("a panic escaped from DrainHandle.Shutdown (a state's Close panicked): %v", r))
+					}
+				}()
+				wk.h.DrainHandle().Shutdown()
+			}()
 		}
 		w.snapshot(c, "<final shutdown>")
 	}
@@ -1073,9 +1293,10 @@ func c29Line(c *Case, w *c29World, l string, f []string) string {
 					okOp := op == "c" || op == "s" || op == "b" || op == "p"
 					if strings.HasPrefix(op, "o") {
 						a, b, cut := strings.Cut(op[1:], "/")
+						b, m, hasM := strings.Cut(b, ":")
 						_, e1 := strconv.Atoi(a)
 						raw, e2 := hex.DecodeString(b)
-						okOp = cut && e1 == nil && e2 == nil && len(raw) == 12
+						okOp = cut && e1 == nil && e2 == nil && len(raw) == 12 && (!hasM || m == "p" || m == "b")
 					}
 					if !okOp {
 						return "bad-op"
@@ -1133,11 +1354,11 @@ func c29Line(c *Case, w *c29World, l string, f []string) string {
 			if _, err := strconv.Atoi(f[1]); err != nil {
 				return "bad-op"
 			}
-			return w.report("n=0")
+			return w.report("ok")
 		}
-		n := w.workers[wi].h.VerifC29DrainExpired(time.Now())
+		w.sweepExpired(wi, time.Now())
 		c.Stat("reap")
-		return w.report(fmt.Sprintf("n=%d", n))
+		return w.report("ok")
 	case f[0] == "reapat" && len(f) == 4:
 		wi, ok := widx(f[1])
 		sid, err := hex.DecodeString(f[2])
@@ -1146,28 +1367,33 @@ func c29Line(c *Case, w *c29World, l string, f []string) string {
 			return "bad-op"
 		}
 		if !ok {
-			return w.report("n=none")
+			return w.report("none")
 		}
 		for _, e := range w.workers[wi].h.VerifC29Entries() {
 			if bytes.Equal(e.SID, sid) {
-				n := w.workers[wi].h.VerifC29DrainExpired(e.ExpiresAt.Add(time.Duration(d)))
+				w.sweepExpired(wi, e.ExpiresAt.Add(time.Duration(d)))
 				c.Stat("reapat")
-				return w.report(fmt.Sprintf("n=%d", n))
+				return w.report("ok")
 			}
 		}
-		return w.report("n=none")
+		return w.report("none")
 	case f[0] == "shutdown" && len(f) == 2:
 		wi, ok := widx(f[1])
 		if !ok {
 			if _, err := strconv.Atoi(f[1]); err != nil {
 				return "bad-op"
 			}
-			return w.report("n=0")
+			return w.report("ok")
 		}
-		n := len(w.workers[wi].h.VerifC29Entries())
-		w.workers[wi].h.DrainHandle().Shutdown()
+		took := map[string]bool{}
+		for _, e := range w.workers[wi].h.VerifC29Entries() {
+			took[fmt.Sprintf("%d/%s", wi, hex.EncodeToString(e.SID))] = true
+		}
+		n := len(took)
+		h := w.workers[wi].h
+		w.startSweep(took, func() int { h.DrainHandle().Shutdown(); return n })
 		c.Stat("shutdown")
-		return w.report(fmt.Sprintf("n=%d", n))
+		return w.report("ok")
 	case f[0] == "drain" && len(f) == 3:
 		wi, ok := widx(f[1])
 		if f[2] != "0" && f[2] != "1" {
@@ -1187,6 +1413,32 @@ func c29Line(c *Case, w *c29World, l string, f []string) string {
 		w.workers[wi].draining = f[2] == "1"
 		c.Stat("drain")
 		return w.report("ok")
+	case f[0] == "goclose" && len(f) == 3:
+		wi, err := strconv.Atoi(f[1])
+		if _, e2 := hex.DecodeString(f[2]); err != nil || e2 != nil {
+			return "bad-op"
+		}
+		w.mu.Lock()
+		var st *c29State
+		for _, x := range w.all {
+			if x.key == fmt.Sprintf("%d/%s", wi, f[2]) && (st == nil || x.blockedNow.Load()) {
+				st = x
+			}
+		}
+		w.mu.Unlock()
+		if st == nil {
+			return w.report("noop")
+		}
+		was := st.blockedNow.Load()
+		st.release()
+		if was {
+			for i := 0; i < 20000 && st.blockedNow.Load(); i++ {
+				time.Sleep(50 * time.Microsecond)
+			}
+			c.Stat("goclose")
+			return w.report("ok")
+		}
+		return w.report("noop")
 	case f[0] == "snap" && len(f) == 1:
 		w.settleAll()
 		s := w.snapshot(c, l)
